@@ -44,6 +44,13 @@ func (rt *runtime) cmplCallNodeFunction(function *object, stash *fnStash, node *
 		value := Value{}
 		if index < len(argumentList) {
 			value = argumentList[index]
+			// 10.6 step 11.c: of several parameters with the same name
+			// only the last one is mapped to the arguments object.
+			for earlier := range index {
+				if indexOfParameterName[earlier] == name {
+					indexOfParameterName[earlier] = ""
+				}
+			}
 			indexOfParameterName[index] = name
 		}
 		// strict = false
@@ -57,7 +64,7 @@ func (rt *runtime) cmplCallNodeFunction(function *object, stash *fnStash, node *
 		// strict = false
 		rt.scope.lexical.setValue("arguments", objectValue(arguments), false)
 		for index := range argumentList {
-			if index < len(node.parameterList) {
+			if index < len(node.parameterList) && indexOfParameterName[index] != "" {
 				continue
 			}
 			indexAsString := strconv.FormatInt(int64(index), 10)
